@@ -418,6 +418,34 @@ TRUSTED_BASE = [
 ]
 
 
+def implementation_raised(ctx, e):
+    """An exception that escaped from a call the check made into the implementation (innermost frame inside the built tree or a Cython module of it,
+    not inside the harness): the implementation fails on a well-formed input - a finding of the check, not an infrastructure failure. Returns a
+    Failure carrying the exception, the implementation frames and the small local values of the harness frame that made the call."""
+    tb = e.__traceback__
+    frames = []
+    while tb is not None:
+        frames.append(tb)
+        tb = tb.tb_next
+    def in_impl(t):
+        fn = t.tb_frame.f_code.co_filename
+        # (Cython frames carry the relative path of the .pyx file, e.g. "cutadapt/_align.pyx")
+        return ("cutadapt" in fn or "dnaio" in fn) and not (os.path.isabs(fn) and fn.startswith(VERIF + os.sep))
+    if not frames or not in_impl(frames[-1]):
+        return None
+    caller = next((t for t in reversed(frames) if not in_impl(t)), None)
+    loc = {}
+    if caller is not None:
+        for k, v in caller.tb_frame.f_locals.items():
+            if isinstance(v, (str, int, float, bool)) and len(str(v)) < 400:
+                loc[k] = v
+            elif isinstance(v, dict) and len(json.dumps(v, default=str)) < 600:
+                loc[k] = json.loads(json.dumps(v, default=str))
+    where = [f"{t.tb_frame.f_code.co_filename}:{t.tb_lineno} {t.tb_frame.f_code.co_name}" for t in frames if in_impl(t)][-4:]
+    return Failure(f"{ctx.prop}/implementation-raised", "the implementation raised an unexpected exception on a well-formed input inside a call made by the check",
+                   dict(locals_of_calling_frame=loc, implementation_frames=where), f"{type(e).__name__}: {e}", None)
+
+
 def finish(ctx, proofs, gen_hashes, gen_errors, level="proof", extra_cov=None):
     findings = load_findings()
     known = {f["signature"]: f for f in findings.get("findings", []) if f.get("property") == ctx.prop}
@@ -526,7 +554,16 @@ def main(argv):
         if proofs.get("build_ok") is False and not os.path.exists(DRIVER):
             raise Infra("lake build failed and no driver available:\n" + proofs["log"][-1500:])
         # corpus + correspondence + oracle sweep
-        mod.run(ctx)
+        try:
+            mod.run(ctx)
+        except (Infra, subprocess.TimeoutExpired):
+            raise
+        except Exception as e:
+            fl = implementation_raised(ctx, e)
+            if fl is None:
+                raise
+            ctx.failures.append(fl)
+            ctx.notes.append("the sweep was cut short by an exception raised inside the implementation (reported as a failure)")
         if (proofs["broken"] or gen_errors or ctx.diffs) and not [f for f in ctx.failures]:
             # extended failing-input search
             ctx.notes.append("extended search: proof or correspondence broken")
